@@ -505,10 +505,10 @@ pub fn c11(ctx: &CheckCtx) -> i32 {
          types following the documented inference rule; outputs unique and owned by their component). Non-trivial: \
          >= 2 components or a tag crossing a fold boundary; distinct by query text.",
     );
-    let cases = ctx.cases(40_000, 2_000_000);
+    let cases = ctx.cases(120_000, 2_000_000);
     let res = search(ctx, "c11", cases, WORLD_MIN_LEN, WORLD_MAX_LEN, |b, s, counting| c11_case(b, s, counting, &cfg));
     report.absorb(res, &|b| render_world_case(b, &cfg));
-    let cases = ctx.cases(20_000, 1_000_000);
+    let cases = ctx.cases(60_000, 1_000_000);
     let res = search(ctx, "c11-hostile", cases, 32, 600, crate::checks::frontend::c11_hostile_case);
     report.absorb(res, &|b| crate::checks::frontend::render_hostile(b));
     report.finish()
